@@ -427,6 +427,19 @@ class GraphMLProp(props.BaseProp):
                 cases.append(gen_codec(r, i))
             for i in range(ngraph):
                 cases.append(gen_graph(r, i, specs))
+            # documents far larger than any I/O buffer (8 KiB, 64 KiB): rings of 150-1500 nodes with chords, names from
+            # the pool + a counter, every kind of weight; decided by the round-trip oracle alone (evaluating the
+            # model on thousands of elements inside Coq is slow)
+            r2 = gv.SplitMix(seed * 104729 + 14)
+            for k in range(2 if n < 10000 else 12):
+                nn = r2.pick([150, 400, 1500]) if k else 400
+                nm = ["%s%d" % (r2.pick(NAME_POOL), j) for j in range(nn)]
+                d = r2.below(2)
+                es = [(nm[j], nm[(j + 1) % nn], None if r2.chance(1, 5) else gen_weight_bits(r2)) for j in range(nn)]
+                es += [(nm[r2.below(nn)], nm[r2.below(nn)], gen_weight_bits(r2)) for _ in range(nn // 3)]
+                cases.append({"fam": "graph", "spec": [d, 1, 1, 2, 0, 1], "nomodel": True,
+                              "nodes": [list(x.encode("utf-8")) for x in nm],
+                              "edges": [[list(u.encode("utf-8")), list(v.encode("utf-8")), w] for u, v, w in es]})
         else:
             thorough = n >= 10000
             nseed = len(SEEDS) if thorough else 3
@@ -586,8 +599,9 @@ class GraphMLProp(props.BaseProp):
             if code == 0:
                 msgs += self._valid_graph(c, o)
                 msgs += self._expected(c, o)
-            elif c.get("expect") is not None and tuple(c["spec"]) == SPECS_PERMISSIVE:
-                msgs.append("well-formed GraphML refused with code %s" % code)
+            elif c.get("expect") is not None and code not in (100, 101) and \
+                    self.subject_to_specs(c["spec"], c["expect"]["directed"], c["expect"]) is not None:
+                msgs.append("well-formed GraphML that the supplied specs accept was refused with code %s" % code)
         return msgs
 
     @staticmethod
@@ -625,31 +639,59 @@ class GraphMLProp(props.BaseProp):
             msgs.append("undirected edge not stored in canonical orientation")
         return msgs
 
-    def _expected(self, c, o):
-        """generated well-formed GraphML under permissive specs: exactly the document's elements"""
-        ex = c.get("expect")
-        if ex is None or tuple(c["spec"]) != SPECS_PERMISSIVE:
-            if ex is not None and obs_of(o, 6)[1][0][0] != ex["directed"]:
-                return ["directedness differs from the document's edgedefault"]
-            return []
-        msgs = []
-        directed = obs_of(o, 6)[1][0][0]
-        if directed != ex["directed"]:
-            msgs.append("directedness differs from the document's edgedefault")
-        nodes = [list(r) for r in obs_of(o, 5)[1]]
-        if nodes != ex["nodes"]:
-            msgs.append("node list differs from the document's node elements: %s vs %s" % (nodes, ex["nodes"]))
-        want = []
+    @staticmethod
+    def subject_to_specs(spec, directed, ex):
+        """the document's elements "subject to the supplied specs" (C01's policy, edges in document order after all
+        node elements): None when the policy refuses the document, else (node names, stored edges)"""
+        _d, m, s, dd, ms, slf = spec
+        names = [tuple(n) for n in ex["nodes"]]
+        multi, store = [], {}
         for u, v, wt in ex["edges"]:
             u, v = tuple(u), tuple(v)
-            if not directed and v < u:
-                u, v = v, u
             if wt is None:
                 w = (0, 0)
             else:
                 b = f2bits(float(wt))
                 w = (0, 0) if is_nan_bits(b) else (1, bits2tok(b))
-            want.append((u, v, w))
+            if not s and u == v:
+                if slf == 0:
+                    return None
+                continue
+            if ms == 1 and (u not in names or v not in names):
+                return None
+            for x in (u, v):
+                if x not in names:
+                    names.append(x)
+            k = (u, v) if directed or u <= v else (v, u)
+            if m:
+                multi.append((k[0], k[1], w))
+            elif k in store:
+                if dd == 0:
+                    return None
+                if dd == 2:
+                    store[k] = w
+            else:
+                store[k] = w
+        return names, (multi if m else [(k[0], k[1], w) for k, w in store.items()])
+
+    def _expected(self, c, o):
+        """generated well-formed GraphML: exactly the document's elements, subject to the supplied specs"""
+        ex = c.get("expect")
+        if ex is None:
+            return []
+        msgs = []
+        directed = obs_of(o, 6)[1][0][0]
+        if directed != ex["directed"]:
+            return ["directedness differs from the document's edgedefault"]
+        sub = self.subject_to_specs(c["spec"], directed, ex)
+        if sub is None:
+            return ["the document holds an element the supplied specs refuse (self-loop / undeclared node / duplicate edge "
+                    "with the Error strategy) and the reader returned a graph instead of the error"]
+        nodes = [tuple(r) for r in obs_of(o, 5)[1]]
+        if nodes != sub[0]:
+            msgs.append("node list differs from the document's node elements (then the nodes its edges create): %s vs %s"
+                        % (nodes, sub[0]))
+        want = sub[1]
         got = self._edges(obs_of(o, 1007))
         if sorted(want) != sorted(got):
             msgs.append("edge multiset differs from the document's edge elements: %s vs %s" % (sorted(got)[:4], sorted(want)[:4]))
@@ -676,6 +718,7 @@ class GraphMLProp(props.BaseProp):
         if c["fam"] == "graph":
             code = obs_of(o, 1)
             ks.append("build_outcome_%s" % (code[1][0][0] if code else "none"))
+            ks.append("elements_%s" % ("<=20" if len(c["nodes"]) + len(c["edges"]) <= 20 else ">=200 (document > 8 KiB)"))
         return ks
 
     def shrink_candidates(self, c):
